@@ -16,7 +16,7 @@ def register(chk):
             wseed = seed * 1000 + w + 1
             e2 = dict(env, VERIF_OUT=outdir, VERIF_WORKER=str(w))
             cmd = [exe, corpus, "-seed=%d" % wseed, "-runs=%d" % cfg["runs"], "-max_total_time=%d" % cfg["seconds"],
-                   "-max_len=513", "-timeout=20", "-rss_limit_mb=3000", "-artifact_prefix=%s/art-fuzz-%d-" % (outdir, w),
+                   "-max_len=513", "-timeout=8", "-rss_limit_mb=3000", "-artifact_prefix=%s/art-fuzz-%d-" % (outdir, w),
                    "-print_final_stats=1", "-verbosity=0", "-use_value_profile=1"]
             futs.append(("fuzz", w, ex.submit(chk.run_proc, cmd, e2, cfg["seconds"] + 120, os.path.join(outdir, "log-fuzz-%d.txt" % w))))
         nw = cfg.get("enum_workers", 0)
